@@ -24,45 +24,67 @@ def key(a, b, c):
     return (min(a, b), max(a, b), tuple(sorted(c)))
 
 
+def grow(graph, edge):
+    """The spec's Grow action on the real object: add one edge in place."""
+    if edge["k"] == "d":
+        graph.add_directed_edge(var(edge["e"][0]), var(edge["e"][1]))
+    else:
+        graph.add_undirected_edge(var(edge["e"][0]), var(edge["e"][1]))
+
+
+def history(rec, order):
+    """[(graph record to expect, edge to add first or None)]: order 1 replays a Grow step of SepMachine on ONE object
+    (predecessor graph queried completely, edge added, grown graph queried) when the predecessor's table is known."""
+    if order == 1 and rec.get("prev"):
+        return [(rec["prev"], None), (rec, rec["prev"]["edge"])]
+    return [(rec, None)]
+
+
 def run_dsep(rec, order, fails, stats):
     from y0.algorithm.conditional_independencies import are_d_separated
 
-    g = rec["g"]
-    graph = build_graph(g, order)
-    sep = {(t[0], t[1], tuple(sorted(t[2]))) for t in rec["sep"]}
-    rng = random.Random(order)
-    for a, b in itt.permutations(sorted(g["n"]), 2):
-        for c in subsets(set(g["n"]) - {a, b}):
-            stats["calls"] += 1
-            conds = [var(i) for i in c]
-            if order:  # duplicates / order of conditions must not matter
-                rng.shuffle(conds)
-                conds = conds + conds[:1]
-            exp = key(a, b, c) in sep
-            try:
-                j = are_d_separated(graph, var(a), var(b), conditions=conds)
-            except Exception as exc:  # noqa: BLE001
-                fails.append({"g": g, "a": a, "b": b, "c": list(c), "order": order, "clause": "raised",
-                              "exc": type(exc).__name__, "msg": str(exc)[:200]})
-                continue
-            got = bool(j)
-            if exp:
-                stats["separated"] += 1
-            if got != exp:
-                fails.append({"g": g, "a": a, "b": b, "c": list(c), "order": order, "clause": "verdict",
-                              "expect": exp, "got": got})
-                continue
-            ok_fields = (
-                j.separated == got
-                and str(j.left) < str(j.right)
-                and {j.left, j.right} == {var(a), var(b)}
-                and isinstance(j.conditions, tuple)
-                and list(j.conditions) == sorted(set(var(i) for i in c), key=str)
-                and j.is_canonical
-            )
-            if not ok_fields:
-                fails.append({"g": g, "a": a, "b": b, "c": list(c), "order": order, "clause": "fields",
-                              "judgement": repr(j)})
+    graph = None
+    for step, (cur, edge) in enumerate(history(rec, order)):
+        if graph is None:
+            graph = build_graph(cur["g"], order)
+        else:
+            grow(graph, edge)
+            stats["grow_steps"] = stats.get("grow_steps", 0) + 1
+        g = cur["g"]
+        sep = {(t[0], t[1], tuple(sorted(t[2]))) for t in cur["sep"]}
+        rng = random.Random(order)
+        for a, b in itt.permutations(sorted(g["n"]), 2):
+            for c in subsets(set(g["n"]) - {a, b}):
+                stats["calls"] += 1
+                conds = [var(i) for i in c]
+                if order:  # duplicates / order of conditions must not matter
+                    rng.shuffle(conds)
+                    conds = conds + conds[:1]
+                exp = key(a, b, c) in sep
+                base = {"g": g, "a": a, "b": b, "c": list(c), "order": order}
+                if edge is not None:
+                    base["after_adding"] = edge
+                try:
+                    j = are_d_separated(graph, var(a), var(b), conditions=conds)
+                except Exception as exc:  # noqa: BLE001
+                    fails.append({**base, "clause": "raised", "exc": type(exc).__name__, "msg": str(exc)[:200]})
+                    continue
+                got = bool(j)
+                if exp:
+                    stats["separated"] += 1
+                if got != exp:
+                    fails.append({**base, "clause": "verdict", "expect": exp, "got": got})
+                    continue
+                ok_fields = (
+                    j.separated == got
+                    and str(j.left) < str(j.right)
+                    and {j.left, j.right} == {var(a), var(b)}
+                    and isinstance(j.conditions, tuple)
+                    and list(j.conditions) == sorted(set(var(i) for i in c), key=str)
+                    and j.is_canonical
+                )
+                if not ok_fields:
+                    fails.append({**base, "clause": "fields", "judgement": repr(j)})
 
 
 def run_sigma(rec, order, fails, stats):
@@ -104,8 +126,18 @@ def run_sigma(rec, order, fails, stats):
 def run_ci(rec, order, fails, stats):
     from y0.algorithm import conditional_independencies as ci
 
+    graph = None
+    for cur, edge in history(rec, order):
+        if graph is None:
+            graph = build_graph(cur["g"], order)
+        else:
+            grow(graph, edge)
+            stats["grow_steps"] = stats.get("grow_steps", 0) + 1
+        run_ci_on(ci, graph, cur, edge, order, fails, stats)
+
+
+def run_ci_on(ci, graph, rec, edge, order, fails, stats):
     g = rec["g"]
-    graph = build_graph(g, order)
     sep = {(t[0], t[1], tuple(sorted(t[2]))) for t in rec["sep"]}
     minsize = {(t[0], t[1]): t[2] for t in rec["min"]}
     n = len(g["n"])
@@ -113,6 +145,8 @@ def run_ci(rec, order, fails, stats):
         for pname, policy in (("topological", None), ("len_lex", ci._len_lex)):
             stats["calls"] += 1
             base = {"g": g, "k": k, "policy": pname, "order": order}
+            if edge is not None:
+                base["after_adding"] = edge
             try:
                 res = ci.get_conditional_independencies(graph, max_conditions=k, policy=policy)
             except Exception as exc:  # noqa: BLE001
